@@ -11,3 +11,6 @@ import PMH.Props.C16
 #print axioms PMH.C16.fuel_defect_bounds
 #print axioms PMH.C16.distribution_function_limit
 #print axioms PMH.C16.iid_uniform_draws_exist
+#print axioms PMH.C16.source_eq_model
+#print axioms PMH.C16.source_sample_in_unit_interval
+#print axioms PMH.C16.source_sample_distribution_function
